@@ -110,7 +110,12 @@ Proof.
   intros e pre post rest ok H. unfold und, ulen, uhead in *.
   destruct (unit_txs_nonempty e) as [t0 [us E]]. rewrite E in *. simpl in H.
   simpl length. simpl seq. simpl map. simpl combine. simpl repeat. simpl app.
-  cbn [fill]. rewrite nth_error_app_at. rewrite H. rewrite set_nth_app.
+  cbn [fill]. rewrite nth_error_app_at. rewrite H.
+  assert (FIT : (length (pre ++ None :: repeat None (length us) ++ post)
+                 <? length pre + length (members e))%nat = false).
+  { apply Nat.ltb_ge. rewrite !app_length. cbn [length]. rewrite app_length, repeat_length.
+    unfold unit_txs in E. destruct (members e) as [|m ms]; inversion E; subst; simpl; lia. }
+  rewrite FIT. rewrite set_nth_app.
   assert (PM : put_members (pre ++ Some (px_id e) :: repeat None (length us) ++ post) (length pre) (members e)
                = Ok (pre ++ Some t0 :: map Some us ++ post)).
   { unfold unit_txs in E. destruct (members e) as [|m ms] eqn:Em.
